@@ -28,6 +28,21 @@ fn main() {
         facets::c01::child_main(&args[2]);
         return;
     }
+    if facet == "probe" {
+        // development aid: evaluate source texts under the standard bindings, print result + call log
+        let users = vec![("tick".to_string(), api::UserFn::Arg0)];
+        for src in &args[2..] {
+            let binds = gen::std_bindings(0);
+            match api::compile(src) {
+                Ok(p) => {
+                    let o = api::exec_full(&[("main".to_string(), p.clone())], "main", &binds, &users);
+                    println!("{}\n  => {} {}\n  code {}", src, o.obs, o.log, api::code_wire(&p));
+                }
+                Err(e) => println!("{}\n  => compile {}", src, e),
+            }
+        }
+        return;
+    }
     let mut opts = Opts {
         thorough: false,
         seed: 1,
@@ -80,6 +95,8 @@ fn main() {
         "C09" => facets::c09::run(&opts),
         "C19" => facets::c19::run(&opts),
         "C13" => facets::c13::run(&opts),
+        "C07" => facets::c07::run(&opts),
+        "C08" => facets::c08::run(&opts),
         other => {
             eprintln!("unknown facet {}", other);
             std::process::exit(2)
